@@ -74,6 +74,41 @@ CHECKS = {
    "Boundary sweep limit-2..limit+2 on the real frame codec and end-to-end RPCs aiming each of the four frames at an applicable limit on caller/callee/both/neither, plus 8 MiB-boundary and 12/32 MiB RPCs without limits; every error must be confined to the RPC. The 8 MiB cap with no limit configured is a recorded finding.",
    "Header-frame sizes computed by an independent reference encoder.",
    "DESIGN.md §4 C15", "E1 simnet + E3 component"),
+ "C07": ("exploration",
+   "runtime monitor: independent hand-written wire parser/encoder + golden byte vectors vs. the real codecs",
+   "Thousands of seeded requests/responses through the real encoders/decoders over in-memory streams (whole, byte-at-a-time, random chunks); an independent parser/encoder of the established layout must consume the produced bytes exactly and agree on every field (byte equality for <=1 header); pinned golden vectors; round trip with empty extensions; every strict prefix rejected; wrong preamble/version/reserved byte/status rejected; mutated and random bytes never panic and are accepted only when the reference parser yields the same value.",
+   "Only Version::V1 exists; bincode's free-function configuration is mirrored by the reference parser.",
+   "DESIGN.md §4 C07", "E3 component"),
+ "C08": ("fault_enumeration",
+   "runtime monitor: shutdown/tear-down instant swept (virtual time in simnet; 250 us grid in real-socket sub-processes) + panic hook + hang diagnosis",
+   "E1: simulated shutdown (by shutdown() or by dropping the last handle) of a network with a seeded in-flight mix at an instant swept in 100 us/1 ms steps; completes within shutdown_idle_timeout + 1 s, then closed/no peers/subscribe errs/weak refs dead/0 live service clones, subscriber gets LostPeer then end-of-stream, pending and later API calls return errors, remote peers drop the network, no panic. E2: sub-process trials on real UDP sockets and a 4-worker runtime; the runtime is dropped (handles alive / dropped first / during shutdown / after shutdown) on a 0-50 ms grid; no panic line, exit 0, drop(runtime) returns (a hang is a violation only when gdb shows a spinning connection-manager thread), address re-bindable at once after shutdown().",
+   "Tear-down instants depend on OS scheduling; two defects found this way were repaired (fix: commits), one is a recorded finding.",
+   "DESIGN.md §4 C08", "E1 simnet + E2 realnet sub-process"),
+ "C16": ("exploration",
+   "runtime monitor vs. reference route matcher and reference layer stacks",
+   "Route tables built by seeded programmes of route/add_rpc_service/route_layer/merge; every built table gets each pattern instantiated, near misses and odd strings; each leaf and layer counts invocations and stamps the response; compared with a reference matcher (static equality, catch-all = prefix + non-empty tail, empty tail don't-care) and reference layer stacks; no call-time panic.",
+   ":param segments not generated (not in the stated pattern language).",
+   "DESIGN.md §4 C16", "E3 component"),
+ "C17": ("exploration",
+   "runtime monitor over generated programs: AST cross-check of generator output + compiled driver of generated clients/servers",
+   "Generator level: thousands of seeded definitions through anemo_build's generators; method->route maps read off the client and server ASTs must agree and lie under '/'+SERVICE_NAME+'/'. Execution level: batches of 12 generated services compiled by /verif/harness-codegen; every client method is called through Router::add_rpc_service with 8 scripted outcomes; handler log, results, statuses (code, message, headers), undecodable payloads and unknown routes are judged.",
+   "Only identifier-shaped definitions; Attributes not varied.",
+   "DESIGN.md §4 C17", "E4 codegen"),
+ "C18": ("exploration",
+   "runtime monitor: atomic per-peer gauge inside the wrapped service under a multi-threaded workload",
+   "InflightLimitLayer (limit 1..64, both modes) around a gauged service on a 4-worker runtime; tasks share clones and issue requests that finish, fail or are cancelled at random poll counts; the gauge's fetch_add return value is the observation (<= limit); refused requests never touch it; at quiescence gauges are 0 and a probe fills each peer with exactly `limit` never-finishing requests.",
+   "Interleavings are those a 4-worker runtime produces.",
+   "DESIGN.md §4 C18", "E3 component"),
+ "C19": ("exploration",
+   "runtime monitor: admission timestamps vs. one-sided GCRA bound (wall clock)",
+   "RateLimitLayer (burst 1..20, interval 2..50 ms, both modes) around a service that timestamps admissions; concurrent saturating phase judged by k <= B + floor(((t_k - T_P)*1.001 + 1 ms)/tau); refusals are TooManyRequests with parsable wait-nanos and never reach the service; sequential phase checks 0 < hint <= full refill and that a retry after the hint is admitted; fresh peer gets its burst; 400k sequential refusals look for non-positive hints. One defect repaired (zero hint), one recorded (governor admits burst+1 after idle).",
+   "Decided against the wall clock; the window is over-estimated so scheduling delays only make the oracle more lenient.",
+   "DESIGN.md §4 C19", "E3 component"),
+ "C20": ("exploration",
+   "runtime monitor: three-way log comparison (authorizer, inner service, caller) under a multi-threaded workload",
+   "RequireAuthorizationLayer with a logging wrapper around the real AllowedPeers or a scripted authorizer, driven through 1-64 clones per task on a 4-worker runtime; per request id: invoked iff accepted, exactly once; accepted => inner's response and the inner saw the authorizer's mutation; refused => the authorizer's response byte for byte; allow-list verdict/status vs. reference.",
+   "Response equality on (status, sorted headers, body length, 64-bit hash).",
+   "DESIGN.md §4 C20", "E3 component"),
 }
 
 NOT_YET = {}
@@ -101,7 +136,7 @@ def main():
             na.append({"property_id": pid, "reason": NOT_YET.get(pid, "check not built yet in this session (planned: DESIGN.md §4 " + pid + "); not claimed until its monitor runs clean on the unchanged tree")})
     m = {
         "version": 1,
-        "setup_cmd": "cd /verif/harness && CARGO_NET_OFFLINE=true cargo build --release --offline",
+        "setup_cmd": "cd /verif/harness && CARGO_NET_OFFLINE=true cargo build --release --offline && cd /verif/harness-codegen && CARGO_NET_OFFLINE=true cargo build --offline",
         "hooks": {
             "guard": "--cfg bmwill_anemo_verif",
             "enable": "RUSTFLAGS='--cfg bmwill_anemo_verif' (set in /verif/harness/.cargo/config.toml; the harness path-depends on /repo/crates/*)",
@@ -111,6 +146,8 @@ def main():
         },
         "engines": [
             {"name": "E1 simnet", "path": "/verif/harness/src/{fabric,world,adversary}.rs", "kind_free_text": "real anemo Networks (+ raw hostile quinn/rustls endpoints) on an in-memory datagram fabric under tokio's paused clock; monitors at the API boundary", "serves_properties": ["C01","C02","C03","C04","C05","C06","C09","C10","C11","C12","C13","C14","C15"]},
+            {"name": "E2 realnet sub-process", "path": "/verif/harness/src/props/c08_trial.rs", "kind_free_text": "real Networks on UDP loopback and a multi-threaded runtime, each trial in a sub-process with panic hook and watchdog", "serves_properties": ["C08"]},
+            {"name": "E4 codegen", "path": "/verif/harness-codegen", "kind_free_text": "build.rs runs anemo-build on seeded definitions; generated clients/servers are compiled and driven", "serves_properties": ["C17"]},
             {"name": "E3 component", "path": "/verif/harness/src/props", "kind_free_text": "single components behind cfg-guarded wrappers or public API, with reference models in /verif/harness/src/refmodel"},
         ],
         "checks": checks,
